@@ -269,6 +269,25 @@ def block_states(rc):
     return IN, at
 
 
+def rule_D(ck, units):
+    import kernels
+    ck.rule('D.product-factor-order', 'distributed matrix product (the kernel behind every distributed R*A*P): in each of its accumulation sites the entry of the left matrix '
+                                      '(fetched in the outer loop) is the left factor and the entry of the right matrix (fetched in the nested loop) the right factor - '
+                                      'necessary for block-valued (non-commuting) matrices, and all sites must agree', 1)
+    done = set()
+    for u in units.values():
+        for f in u.funcs:
+            if f.q != 'amgcl::mpi::product' or f.cfg is None or f.full in done:
+                continue
+            done.add(f.full)
+            sites = kernels.factor_order(f)
+            bad = [n for n, ok in sites if not ok]
+            ck.ob('D.product-factor-order', 'amgcl::mpi::product', f.where(bad[0]) if bad else f.where(), bool(sites) and not bad,
+                  ('no accumulation site found' if not sites else 'at %s the product is `%s`: the entry of the right matrix is the left factor (%d other sites multiply left * right)' % (
+                      f.where(bad[0]), show(bad[0]), len(sites) - len(bad))) if (bad or not sites) else '')
+            ck.extra['product_sites'] = len(sites)
+
+
 def main(tier):
     ck = Check('C12', tier, 'C12 (clauses): all reductions of the distributed solve are global, and communicating loops terminate consistently on all ranks.')
     T = os.path.join(ir.VERIF, 'tus')
@@ -280,5 +299,6 @@ def main(tier):
     rule_A(ck, units)
     rule_B(ck, units)
     rule_C(ck, units)
+    rule_D(ck, units)
     ck.assumptions += ['configuration is equal on all ranks', 'convergence, the distributed aggregation being a partition, distributed RAP and the direct coarse solve are not decided']
     return ck.finish()
